@@ -24,7 +24,9 @@ Space: a finite catalogue of small static methods (assembled with gen/dalvik.py,
                        and without else, while / do-while / for / nested / break / return-from-loop / continue /
                        compound-condition / loop-and-a-half / rotated (javac "goto cond") loops (iteration counts bounded
                        by (a & 7)), nested if and else-if ladders, a division computed before a branch or a loop or
-                       tested by an if with an empty body,
+                       tested by an if with an empty body, in-place updates x = x op c (add/sub/rsub and mul/and/or/
+                       xor/shl; lit8, lit16, 2addr and 23x with a constant register; int and long; c over {0,+-1,+-2,127,
+                       -128,32767,-32768,MAX,MIN,MIN+1}) loop-carried (while, do-while) and straight-line,
                        values defined in a loop body and used by the do-while condition / after the loop, packed and
                        sparse switches with default, gaps, shared targets, fall-through, returns, switch in a loop --
                        instantiated over the comparison ops (quick: a diagonal of op tuples; thorough: full op product)
@@ -40,6 +42,9 @@ prints, per program, the result or the exception class name for every tuple.  Ex
                                                              rejected methods are removed and the rest recompiled;
                                                              bisection if nothing can be attributed)
   result differs                -> <key>:value-mismatch / <key>:exception-mismatch / <key>:nontermination
+  get_source_ext() token texts concatenated != get_source()  -> <key>:ext-text-differs   (alternative entry point)
+Every batch (and every replay) is preceded by a decoy decompilation of another class with the same class and method
+names (state carried from one decompilation to the next would be caught and confirmed).
 Keys are input-side: tier + opcode family (mnemonic without /2addr,/lit8,/lit16) for tier A, tier + op pair for B,
 tier + skeleton id for C (the op instantiation is part of the program id in the witness, not of the key).  A tier B pair
 that contains an operator whose own single-operator tier A program already fails is counted (`subsumed_by_tier_A`) and
@@ -1267,6 +1272,93 @@ def sk_sc2long(ops, t1, has_else):
     return body
 
 
+# in-place updates  x = x <op> c  (destination == first operand: the writer uses the compound / increment form)
+INPLACE_C = [0, 1, -1, 2, -2, 127, -128, 32767, -32768]
+
+
+def _inplace_programs(thorough):
+    """key = C:inplace.<type>:<op> ; pid C:inplace.<type>:<op>:<encoding>:<layout>:<c>"""
+    P = []
+    for ty in ("int", "long"):
+        wide = ty == "long"
+        T = "J" if wide else "I"
+        if wide:
+            consts = INPLACE_C + [MAXI, MINI, MAXL, MINL, MINL + 1]
+            r, K, n, nloc = 0, 2, 4, 5
+        else:
+            consts = INPLACE_C + [MAXI, MINI, MINI + 1]
+            r, K, n, nloc = 0, 2, 1, 3
+        cw = "const-wide" if wide else "const"
+        mv = "move-wide" if wide else "move"
+        rt = ret_ins(T)
+        # (op, encoding, constants)
+        forms = []
+        for op in ("add", "sub"):
+            forms.append((op, "2addr", consts))
+            forms.append((op, "23x", consts))
+        if not wide:
+            forms.append(("add", "lit8", [c for c in consts if -128 <= c <= 127]))
+            forms.append(("add", "lit16", [c for c in consts if -32768 <= c <= 32767]))
+            forms.append(("rsub", "lit8", [c for c in consts if -128 <= c <= 127]))
+            forms.append(("rsub", "lit16", [c for c in consts if -32768 <= c <= 32767]))
+        few = [-1, 127, MINL if wide else MINI]
+        for op in ("mul", "and", "or", "xor", "shl"):
+            if wide and op == "shl":
+                continue
+            forms.append((op, "2addr", consts if thorough else few))
+        layouts = ("while", "dowhile", "param", "twice") if thorough else ("while", "param")
+        for op, enc2, cs in forms:
+            for layout in layouts:
+                for c in cs:
+                    def body(s, R, op=op, enc2=enc2, layout=layout, c=c, wide=wide, ty=ty):
+                        def upd(x):
+                            if enc2 == "2addr":
+                                s.ins("%s-%s/2addr" % (op, ty), x, K)
+                            elif enc2 == "23x":
+                                s.ins("%s-%s" % (op, ty), x, x, K)
+                            elif op == "rsub":
+                                s.ins("rsub-int" if enc2 == "lit16" else "rsub-int/lit8", x, x, c)
+                            else:
+                                s.ins("%s-int/%s" % (op, enc2), x, x, c)
+                        needk = enc2 in ("2addr", "23x")
+                        if layout == "param":
+                            if needk:
+                                s.ins(cw, K, c)
+                            upd(R.a)
+                            s.ins(rt, R.a)
+                            return
+                        s.ins(mv, r, R.b)
+                        if needk:
+                            s.ins(cw, K, c)
+                        if layout == "twice":
+                            upd(r)
+                            upd(r)
+                            s.ins(rt, r)
+                            return
+                        if wide:
+                            s.ins("long-to-int", n, R.a)
+                            s.ins("and-int/lit8", n, n, 7)
+                        else:
+                            s.ins("and-int/lit8", n, R.a, 7)
+                        Ltop, Lexit = D.Label(), D.Label()
+                        if layout == "while":
+                            s.label(Ltop)
+                            s.ins("if-lez", n, Lexit)
+                            upd(r)
+                            s.ins("add-int/lit8", n, n, -1)
+                            s.ins("goto", Ltop)
+                            s.label(Lexit)
+                        else:
+                            s.label(Ltop)
+                            upd(r)
+                            s.ins("add-int/lit8", n, n, -1)
+                            s.ins("if-gtz", n, Ltop)
+                        s.ins(rt, r)
+                    P.append(Prog("C:inplace.%s:%s:%s:%s:%d" % (ty, op, enc2, layout, c), "C:inplace.%s:%s" % (ty, op),
+                                  T + T, T, nloc, body))
+    return P
+
+
 # switches: v0 = r, v1 = key
 SW_KEYS = {"a": None, "and3": ("and-int/lit8", 3), "sub30": ("add-int/lit8", -30), "rem5": ("rem-int/lit8", 5)}
 
@@ -1467,6 +1559,7 @@ def tier_c(thorough):
             for ops in lops:
                 sid = "sc2long.%s.%s" % (t1, "else" if els else "noelse")
                 add("%s:%s" % (sid, ",".join(ops)), sid, sk_sc2long(ops, t1, els), "JJ", "J", 6)
+    P.extend(_inplace_programs(thorough))
     # switches
     for pid, sid, args in _switch_catalogue(thorough):
         add("switch." + pid, "switch." + sid, sk_switch(*args))
@@ -1531,7 +1624,9 @@ def decompile(progs):
             if not src or not src.strip():
                 res.append((None, "empty source"))
             else:
-                res.append((src, None))
+                # alternative entry point: the token stream of get_source_ext() must spell the same text
+                ext = "".join(str(t[1]) for t in dv.get_source_ext())
+                res.append((src, None if ext == src else ("EXT", ext)))
         except Exception as e:          # noqa: any exception of the decompiler on a well-formed method is a finding
             import traceback
             tb = traceback.extract_tb(e.__traceback__)
@@ -1716,6 +1811,9 @@ def _verdict(p, i, dec, srcs, rejected, outputs, hung, exp):
     if got is None or len(got) != len(exp):
         raise RuntimeError("driver output missing/short for %s: %r" % (p.pid, got))
     if got == exp:
+        if dec[i][1] is not None:
+            return "ext-text-differs", jtxt + "  get_source_ext() tokens spell a different text:\n    " + \
+                dec[i][1][1].strip("\n").replace("\n", "\n    ")
         return None
     diffs = [(t, e, g) for t, e, g in zip(p.tuples(), exp, got) if e != g]
     vm = any("." not in e and "." not in g for _, e, g in diffs)          # a '.' only occurs in exception class names
@@ -1726,12 +1824,23 @@ def _verdict(p, i, dec, srcs, rejected, outputs, hung, exp):
             % (tuple(t), e, g, len(diffs), len(exp), "; exception behaviour differs too" if ex and vm else ""))
 
 
+def _decoy(n):
+    """Decoy history: before a batch is judged, a DIFFERENT class with the same class name and the same method names
+    (m0, m1, ...) but other bodies and signatures goes through the same API calls (DEX, Analysis, DvMethod.process,
+    get_source, get_source_ext); results ignored.  State keyed by class / method name or index that survives from one
+    decompilation to the next would then show up in the batch -- also in replay(), which runs this too."""
+    cat = catalogue(False)
+    k = max(1, min(n, 12))
+    decompile([cat[(j * 211 + 977) % len(cat)] for j in range(k)])
+
+
 def judge(progs, acc, tier, cls="T0", samples=0):
     """The one judging routine (shared by run_shard and replay).
 
     Tier B programs name the tier A single-operator programs they are built from (`bases`); those are compiled and run
     along with the batch, and a pair whose operator already disagrees on its own is counted as `subsumed_by_tier_A`
     instead of being reported again (one root cause -> one key)."""
+    _decoy(len(progs))
     have = {p.pid for p in progs}
     need = []
     for p in progs:
@@ -1757,7 +1866,7 @@ def judge(progs, acc, tier, cls="T0", samples=0):
             acc.count("programs")
             acc.count("programs_tier_" + p.pid[0])
             acc.case(nontrivial=p.pid, outcome=(tuple(exp[:40]), len(set(exp))))
-            if v is None or v[0] in ("value-mismatch", "exception-mismatch"):
+            if v is None or v[0] in ("value-mismatch", "exception-mismatch", "ext-text-differs"):
                 acc.count("disagreements_checked", len(exp))
             if samples and v is None and len(acc.samples) < samples:
                 acc.sample({"program": p.pid, "bytecode": p.listing, "java": srcs[i].strip("\n").split("\n")})
